@@ -425,7 +425,14 @@ func (p *DutyCycleReqPayload) UnmarshalBinary(data []byte) error {
 	if len(data) != 1 {
 		return errors.New("lorawan: 1 byte of data is expected")
 	}
-	p.MaxDCycle = data[0]
+	// LoRaWAN 1.0.2+ / 1.1: bits 7..4 are RFU (ignored by the receiver), bits 3..0
+	// hold MaxDCycle. LoRaWAN 1.0 / 1.0.1 used the whole byte, with 255 meaning that
+	// the device is switched off (MarshalBinary still accepts this value).
+	if data[0] == 255 {
+		p.MaxDCycle = 255
+	} else {
+		p.MaxDCycle = data[0] & 0x0f
+	}
 	return nil
 }
 
